@@ -507,6 +507,7 @@ func (in *Interp) bytesOf(v Value) []*Term {
 		es := in.sliceElems(x)
 		out := make([]*Term, len(es))
 		for i, e := range es {
+			e = in.force(e) // an unmaterialised havoc byte: arbitrary (not written back: a later read is again arbitrary, an over-approximation)
 			t, ok := e.(*Term)
 			if !ok {
 				in.fail("bytesOf: element %T", e)
